@@ -59,16 +59,16 @@ Proof. intros [H _] Ht. auto. Qed.
 
 (* ================================================================== the fragment *)
 (* array values.  The canonical form the constructor Array() and the model guarantee: the
-   index sort is not an array sort and not Real (a Real index would need Real constants in
-   lowest terms, which [okt] does not ask), the indices are constants of Bool / Int / BV / String
-   sort, strictly increasing in the model's order of index constants (Ctors.const_key; the
+   index sort is not an array sort, the indices are constants of Bool / Int / Real / BV / String
+   sort (Real constants in lowest terms with a positive denominator, as everywhere in [okt]),
+   strictly increasing in the model's order of index constants (Ctors.const_key; the
    implementation keeps a dict, the model and the harness keep this order), and no assigned
-   value is syntactically the default (Array() drops such pairs); the element sort is not Real
-   (kept from the time when the equality of two constant arrays was decided syntactically).
-   [arr_keys_ok] is the part that survives the simplification of the children. *)
+   value is syntactically the default (Array() drops such pairs).  [arr_keys_ok] is the part
+   that survives the simplification of the children. *)
 Definition key_const (t : term) : bool :=
   match t with
   | T (OBoolC _) [] | T (OIntC _) [] | T (OBVC _ _) [] | T (OStrC _) [] => true
+  | T (ORealC n d) [] => (0 <? d)%Z && (Z.gcd n d =? 1)%Z      (* a Fraction: lowest terms *)
   | _ => false
   end.
 Definition klt (a b : term) : bool := lex_ltb (const_key a) (const_key b).
@@ -77,8 +77,8 @@ Fixpoint keys_sorted (l : list (term * term)) : bool :=
   | [] => true
   | kv :: r => forallb (fun kv' => klt (fst kv) (fst kv')) r && keys_sorted r
   end.
-Definition idx_ok (it : ty) : bool := match it with TArr _ _ | TReal => false | _ => inhb it end.
-Definition elt_ok (t : option ty) : bool := match t with Some TReal | None => false | Some _ => true end.
+Definition idx_ok (it : ty) : bool := match it with TArr _ _ => false | _ => inhb it end.
+Definition elt_ok (t : option ty) : bool := match t with None => false | Some _ => true end.
 Definition arr_keys_ok (it : ty) (d : term) (rest : list term) : bool :=
   idx_ok it && elt_ok (tc d) && Nat.even (List.length rest) &&
   forallb (fun kv => key_const (fst kv)) (pairs_of rest) && keys_sorted (pairs_of rest).
@@ -106,7 +106,7 @@ Definition ok_node (o : op) (args : list term) : bool :=
   | OFunction _ (TFun _ r) => inhb r && negb (Nat.eqb (List.length args) 0)
   | OFunction _ _ => false
   | OBoolC _ | OIntC _ | OStrC _ => true
-  | ORealC _ d => (0 <? d)%Z
+  | ORealC n d => (0 <? d)%Z && (Z.gcd n d =? 1)%Z      (* Fraction: positive denominator, lowest terms *)
   | OBVC v w => (0 <? w)%Z && (0 <=? v)%Z && (v <? 2 ^ w)%Z
   (* stage 2: Int / Real arithmetic *)
   | OPlus | OTimes => negb (Nat.eqb (List.length args) 0)
@@ -1539,6 +1539,28 @@ Proof.
   cbv zeta. rewrite Ed. assert (Hqd : qd <> 0%Z). { intros E. subst qd. lia. }
   destruct (Z.ltb_spec qd 0); cbn [snd]; lia.
 Qed.
+Lemma fr_norm_gcd n d : d <> 0%Z -> Z.gcd (fst (fr_norm n d)) (snd (fr_norm n d)) = 1%Z.
+Proof.
+  intros Hd. unfold fr_norm. destruct (Z.eqb_spec d 0) as [->|_]; [congruence|]. cbv zeta.
+  assert (Hg : Z.gcd n d <> 0%Z). { intros E. apply Z.gcd_eq_0_r in E. congruence. }
+  pose proof (Z.gcd_div_gcd n d (Z.gcd n d) Hg eq_refl) as G.
+  destruct (d / Z.gcd n d <? 0)%Z; cbn [fst snd]; [now rewrite Z.gcd_opp_l, Z.gcd_opp_r | exact G].
+Qed.
+Lemma fr_norm_lowest n d : (0 < d)%Z -> Z.gcd n d = 1%Z -> fr_norm n d = (n, d).
+Proof.
+  intros D G. unfold fr_norm. rewrite (proj2 (Z.eqb_neq d 0)) by lia. cbv zeta. rewrite G, !Z.div_1_r.
+  now rewrite (proj2 (Z.ltb_ge d 0)) by lia.
+Qed.
+(* two fractions in lowest terms with positive denominators and the same value are the same *)
+Lemma lowest_terms_inj n1 d1 n2 d2 : (0 < d1)%Z -> (0 < d2)%Z -> Z.gcd n1 d1 = 1%Z -> Z.gcd n2 d2 = 1%Z ->
+  (n1 * d2 = n2 * d1)%Z -> n1 = n2 /\ d1 = d2.
+Proof.
+  intros H1 H2 G1 G2 E.
+  assert (D12 : (d1 | d2)%Z). { apply (Z.gauss d1 n1 d2); [exists n2; lia | now rewrite Z.gcd_comm]. }
+  assert (D21 : (d2 | d1)%Z). { apply (Z.gauss d2 n2 d1); [exists n1; lia | now rewrite Z.gcd_comm]. }
+  assert (Ed : d1 = d2). { apply Z.divide_antisym_nonneg; auto; lia. }
+  subst d2. split; auto. nia.
+Qed.
 Lemma q2r_norm n d : q2r (fr_norm n d) = Q2R' n d.
 Proof. apply Q2R_norm. Qed.
 Lemma q2r_add a b : snd a <> 0%Z -> snd b <> 0%Z ->
@@ -1606,12 +1628,15 @@ Proof.
   6:{ do 5 right. destruct (tc_inv _ _ _ Htc) as (tys & _ & Hr). cbn in Hr. destruct tys as [|d r]; [discriminate|].
       destruct (array_value_ok it d r true); [|discriminate]. inversion Hr. do 2 eexists. split; reflexivity. }
   all: pose proof (const_no_args _ _ _ Htc Logic.I) as ->; cbn in Htc; inversion Htc; subst.
-  - right; right; left. exists num, den. cbn in Hn. apply Z.ltb_lt in Hn. repeat split; auto.
+  - right; right; left. exists num, den. cbn in Hn. apply andb_true_iff in Hn. destruct Hn as [Hn _]. apply Z.ltb_lt in Hn. repeat split; auto.
   - left. eexists. split; reflexivity.
   - right; left. eexists. split; reflexivity.
   - right; right; right; right; left. eexists. split; reflexivity.
   - right; right; right; left. do 2 eexists. split; reflexivity.
 Qed.
+
+Lemma realc_lowest n d : okt (TRealC n d) = true -> (0 < d)%Z /\ Z.gcd n d = 1%Z.
+Proof. intros H. apply okt_node in H. cbn in H. apply andb_true_iff in H. destruct H as [H1 H2]. apply Z.ltb_lt in H1. apply Z.eqb_eq in H2. auto. Qed.
 
 Lemma r_equals_sound a b ty r : okt a = true -> okt b = true -> tc (T OEquals [a; b]) = Some ty ->
   is_array_value a = false -> is_array_value b = false ->
@@ -1727,8 +1752,9 @@ Proof. intros ->. repeat split. Qed.
 Lemma nterm_mk_real t f : t = TReal -> snd f <> 0%Z -> nterm t (mk_real f) /\ rvI (mk_real f) = q2r f.
 Proof.
   intros -> Hf. unfold mk_real. pose proof (fr_norm_pos (fst f) (snd f) Hf) as Hp. pose proof (q2r_norm (fst f) (snd f)) as Hq.
-  destruct (fr_norm (fst f) (snd f)) as [n d]. cbn [snd] in Hp. split.
-  - split; [|reflexivity]. cbn. apply andb_true_iff. split; auto. now apply Z.ltb_lt.
+  pose proof (fr_norm_gcd (fst f) (snd f) Hf) as Hg.
+  destruct (fr_norm (fst f) (snd f)) as [n d]. cbn [fst snd] in Hp, Hg. split.
+  - split; [|reflexivity]. cbn. rewrite Hg. cbn. rewrite andb_true_r. apply andb_true_iff. split; auto. now apply Z.ltb_lt.
   - exact Hq.
 Qed.
 Lemma const_of_type_sound t v c (Ht : arith t) : snd v <> 0%Z -> const_of_type (Some t) v = Some c -> nterm t c /\ rvI c = q2r v.
